@@ -602,8 +602,131 @@ def c08_18(ctx):
     return out
 
 
+def c08_19(ctx):
+    """the string entry points: HDPrivateKey.parse / HDPublicKey.parse evaluated on the Base58Check string of a 78-byte key for every one of
+    the SLIP-132 versions (xprv … Vprv, xpub … Vpub): whatever the entry point does before handing the bytes to raw_parse (decoding, length
+    test, any pre-check on the text) must let every prefix the library itself writes through, with the version kept"""
+    import hashlib
+    from sa.cells import ClassRef, Evaluator, Obj, Raised, Undecided
+    ALPHA = "123456789ABCDEFGHJKLMNPQRSTUVWXYZabcdefghijkmnopqrstuvwxyz"
+
+    def b58check(raw):
+        raw += hashlib.sha256(hashlib.sha256(raw).digest()).digest()[:4]
+        n, out = int.from_bytes(raw, "big"), ""
+        while n:
+            n, r = divmod(n, 58)
+            out = ALPHA[r] + out
+        return "1" * (len(raw) - len(raw.lstrip(b"\x00"))) + out
+    out = []
+    chain = bytes(range(32))
+    for clsname, kind in (("HDPublicKey", "pub"), ("HDPrivateKey", "prv")):
+        spec = "hd:%s.parse" % clsname
+        mod, fn = rl.get(ctx, spec)
+
+        def init(o, **kw):
+            o.attrs.update(kw)
+        hooks = {(clsname, "__init__"): init, ("S256Point", "parse"): lambda cls, b, *a, **k: Obj("pecc", "S256Point", {"sec_": b}),
+                 ("PrivateKey", "__init__"): lambda o, secret=None, *a, **k: o.attrs.update({"secret": secret, "point": Obj("pecc", "S256Point", {})})}
+        bad, n = None, 0
+        for fam in ("mainnet", "testnet"):
+            for h in SLIP132["%s_%s" % (fam, kind)]:
+                ver = bytes.fromhex(h)
+                for depth, child in ((0, 0), (4, 2 ** 31 + 2)):
+                    n += 1
+                    key = (b"\x02" + b"\x11" * 32) if kind == "pub" else (b"\x00" + b"\x22" * 32)
+                    text = b58check(ver + bytes([depth]) + b"\xab\xcd\x01\x02" + child.to_bytes(4, "big") + chain + key)
+                    try:
+                        r = Evaluator(ctx.repo, method_hooks=hooks, max_steps=600000).call(spec, [text], self_obj=ClassRef("hd", clsname))
+                    except Raised as x:
+                        bad = ("bad", "the extended key %s… (version %s, which the library writes) is refused by %s.parse (%s): it does not survive serialise / parse" % (
+                            text[:4], h, clsname, x.name))
+                        break
+                    except Undecided as u:
+                        bad = ("err", "string entry point not evaluable: %s" % u)
+                        break
+                    got = r.attrs if isinstance(r, Obj) else {}
+                    if got.get("pub_version" if kind == "pub" else "priv_version") != ver or got.get("depth") != depth or got.get("child_number") != child:
+                        bad = ("bad", "the extended key %s… (version %s) parses to different fields" % (text[:4], h))
+                        break
+                if bad:
+                    break
+            if bad:
+                break
+        ctx.count("cells", n)
+        if bad is None:
+            out.append(ctx.ok(spec, "all %d strings (every SLIP-132 %s prefix × 2 depths) are accepted with their version kept" % (n, kind), fn, mod, key="xkey-string:" + kind))
+        elif bad[0] == "err":
+            out.append(ctx.err(spec, bad[1], fn, mod))
+        else:
+            out.append(ctx.bad(spec, bad[1], fn, mod, key="xkey-string:" + kind))
+    return out
+
+
+
+def c08_20(ctx):
+    """blind_xpub evaluated over starting paths (depth 0, 2, 4; ' and h notation) × secret paths (empty `m`, one step, several steps, upper
+    case, the largest unhardened index): the key returned is the starting key's descendant along exactly the secret path's indexes and the
+    path returned is the starting path followed by the secret path.  Key parsing, child derivation and serialisation are recording stand-ins
+    (their own clauses decide them); path handling is the repository's code"""
+    from sa.cells import Evaluator, Obj, Raised, Undecided
+    spec = "blinding:blind_xpub"
+    mod, fn = rl.get(ctx, spec)
+
+    def comps(path):
+        out = []
+        for c in path.lower().strip().split("/")[1:]:
+            hard = c[-1:] in ("'", "h")
+            out.append(int(c[:-1] if hard else c) + (2 ** 31 if hard else 0))
+        return out
+
+    def child(o, index):
+        if not isinstance(index, int) or index < 0 or index >= 2 ** 31:
+            raise Raised("ValueError")
+        return Obj("hd", "HDPublicKey", {"depth": o.attrs["depth"] + 1, "trail": o.attrs["trail"] + (index,)})
+    starts = ["m", "m/45'/0", "m/48h/0h/0h/2h"]
+    secrets = ["m", "m/5", "m/1/2/3", "M/7/8", "m/2147483647/0", "m/0/0/0/0/0/0/0/0"]
+    bad, n = None, 0
+    for st in starts:
+        for sec in secrets:
+            n += 1
+            depth = st.count("/")
+            hooks = {("HDPublicKey", "parse"): lambda cls, s_, *a, **k: Obj("hd", "HDPublicKey", {"depth": depth, "trail": ()}),
+                     ("HDPublicKey", "child"): child, ("HDPublicKey", "xpub"): lambda o, *a, **k: "key@" + "/".join(str(i) for i in o.attrs["trail"])}
+            try:
+                r = Evaluator(ctx.repo, method_hooks=hooks).call(spec, ["xpub-standin", st, sec])
+            except Raised as x:
+                bad = ("bad", "starting path %r, secret path %r: raises %s instead of returning the key at the combined path" % (st, sec, x.name))
+                break
+            except Undecided as u:
+                bad = ("err", "blind_xpub not evaluable: %s" % u)
+                break
+            want_key = "key@" + "/".join(str(i) for i in comps(sec))
+            if not isinstance(r, dict) or r.get("blinded_child_xpub") != want_key:
+                bad = ("bad", "starting path %r, secret path %r: the key returned is derived along %s, not along the secret path" % (
+                    st, sec, r.get("blinded_child_xpub") if isinstance(r, dict) else r))
+                break
+            full = r.get("blinded_full_path")
+            try:
+                got_path = comps(full) if isinstance(full, str) and full.lower().startswith("m") else None
+            except ValueError:
+                got_path = None
+            if got_path != comps(st) + comps(sec):
+                bad = ("bad", "starting path %r, secret path %r: the combined path returned is %r" % (st, sec, full))
+                break
+        if bad:
+            break
+    ctx.count("cells", n)
+    if bad is None:
+        return [ctx.ok(spec, "%d (starting path, secret path) cells: key at exactly the secret path below the starting key, combined path = starting path ‖ secret path" % n,
+                       fn, mod, key="blind-cells")]
+    return [ctx.err(spec, bad[1], fn, mod) if bad[0] == "err" else ctx.bad(spec, bad[1], fn, mod, key="blind-cells")]
+
+
+
 OBLIGATIONS = [
     ("C08.18", "CELLS xkey fields", c08_18),
+    ("C08.19", "CELLS xkey string entry", c08_19),
+    ("C08.20", "CELLS blinding", c08_20),
     ("C08.17", "SHARED", c08_17),
     ("C08.16", "SET-ORDER", c08_16),
     ("C08.15", "NOTATION", c08_15),
